@@ -892,8 +892,22 @@ func gunzip(data []byte) ([]byte, error) {
 // This takes a group of JSON objects (not inside a JSON array) and splits them
 // into individual JSON objects.
 func ExtractSeriesOfJsonObjects(body []byte) ([]map[string]interface{}, error) {
+	return extractSeriesOfJsonObjects(body, false)
+}
+
+// Like ExtractSeriesOfJsonObjects, but numbers are kept as json.Number (their
+// literal text) instead of being converted to float64, so integers beyond 2^53
+// are not rounded when the objects are marshalled again.
+func ExtractSeriesOfJsonObjectsKeepNumbers(body []byte) ([]map[string]interface{}, error) {
+	return extractSeriesOfJsonObjects(body, true)
+}
+
+func extractSeriesOfJsonObjects(body []byte, useNumber bool) ([]map[string]interface{}, error) {
 	var objects []map[string]interface{}
 	decoder := json.NewDecoder(bytes.NewReader(body))
+	if useNumber {
+		decoder.UseNumber()
+	}
 
 	for {
 		var obj map[string]interface{}
